@@ -31,6 +31,7 @@ func (t *vTransport) Close() error                                     { return 
 
 type clientWorld struct {
 	hostKey, renterKey types.PrivateKey
+	impKey             types.PrivateKey
 	roots              []types.Hash256
 	contract           rhp4.ContractRevision
 	prices             proto4.HostPrices
@@ -91,8 +92,20 @@ func (w *clientWorld) hostSig(rev types.V2FileContract, sel int) types.Signature
 		r2.RenterOutput.Value = r2.RenterOutput.Value.Sub(types.NewCurrency64(1))
 		r2.HostOutput.Value = r2.HostOutput.Value.Add(types.NewCurrency64(1))
 		return w.hostKey.SignHash(w.cs.ContractSigHash(r2))
+	case 3: // signed by the peer at the other end, which is not the contract's host
+		return w.impKey.SignHash(sh)
 	}
 	return w.hostKey.SignHash(sh)
+}
+
+// impersonate makes the transport's peer somebody other than the contract's
+// host (another host, a stale address, an impostor): it has its own key,
+// signs its own price table and signs revisions with that key.
+func (w *clientWorld) impersonate() {
+	w.impKey = keyFromByte(9)
+	w.t.hostKey = w.impKey.PublicKey()
+	hw := &hostWorld{hostKey: w.impKey}
+	w.prices = hw.signedPrices(w.impKey, time.Now().Add(time.Hour))
 }
 
 // checkClientRevision: the revision returned by a client call is the locally
@@ -124,7 +137,11 @@ func VerifH_C10_roots() {
 	if err != nil {
 		panic(err)
 	}
-	corrupt := vapi.Int("corrupt", 0, 6)
+	corrupt := vapi.Int("corrupt", 0, 7)
+	if corrupt == 7 {
+		w.impersonate()
+		rev, wantUsage, _ = proto4.ReviseForSectorRoots(w.contract.Revision, w.prices, length)
+	}
 	w.t.conn.respond = func(c *scriptConn) []byte {
 		if c.round > 0 {
 			return nil
@@ -152,6 +169,8 @@ func VerifH_C10_roots() {
 			sigSel = 1
 		case 6:
 			sigSel = 2
+		case 7:
+			sigSel = 3
 		}
 		resp.HostSignature = w.hostSig(rev, sigSel)
 		return encResp(&resp)
@@ -172,7 +191,7 @@ func VerifH_C10_roots() {
 
 // VerifH_C10_append: RPCAppendSectors against a corrupting host.
 //
-//verif:harness prop=C10 tier=quick replay=native go=skip require=ok,rejected bounds="contract of 0..3 sectors; 1..2 appended roots each accepted or not; corruption of the new Merkle root / a subtree root / the accepted count / the host signature"
+//verif:harness prop=C10 tier=quick replay=native go=skip require=ok,rejected bounds="contract of 0..3 sectors; 1..2 appended roots each accepted or not; corruption of the new Merkle root / a subtree root / the accepted count / the host signature (forged, over a dearer revision, or made by a peer that is not the contract's host)"
 func VerifH_C10_append() {
 	n := vapi.Int("sectors", 0, 3)
 	w := newClientWorld(n)
@@ -186,7 +205,10 @@ func VerifH_C10_append() {
 			accepted = append(accepted, sectors[i])
 		}
 	}
-	corrupt := vapi.Int("corrupt", 0, 5)
+	corrupt := vapi.Int("corrupt", 0, 6)
+	if corrupt == 6 {
+		w.impersonate()
+	}
 	var rev types.V2FileContract
 	var wantUsage proto4.Usage
 	w.t.conn.respond = func(c *scriptConn) []byte {
@@ -217,6 +239,8 @@ func VerifH_C10_append() {
 				sel = 1
 			} else if corrupt == 5 {
 				sel = 2
+			} else if corrupt == 6 {
+				sel = 3
 			}
 			return encResp(&proto4.RPCAppendSectorsThirdResponse{HostSignature: w.hostSig(rev, sel)})
 		}
@@ -241,7 +265,7 @@ func VerifH_C10_append() {
 // honest-then-corrupting host: on success the new Merkle root is the root of
 // the list model applied to the caller's indices (any order, duplicates).
 //
-//verif:harness prop=C10,C09 tier=quick replay=native go=skip require=ok,rejected bounds="contract of 1..4 sectors; 1..3 caller indices in range, any order, duplicates allowed; corruption of the new Merkle root / a proof hash / the host signature"
+//verif:harness prop=C10,C09 tier=quick replay=native go=skip require=ok,rejected bounds="contract of 1..4 sectors; 1..3 caller indices in range, any order, duplicates allowed; corruption of the new Merkle root / a proof hash / the host signature (forged, over a dearer revision, or made by a peer that is not the contract's host)"
 func VerifH_C10_free() {
 	n := vapi.Int("sectors", 1, 4)
 	w := newClientWorld(n)
@@ -252,7 +276,10 @@ func VerifH_C10_free() {
 	}
 	callerCopy := append([]uint64(nil), indices...)
 	model := swapRemove(w.roots, indices)
-	corrupt := vapi.Int("corrupt", 0, 4)
+	corrupt := vapi.Int("corrupt", 0, 5)
+	if corrupt == 5 {
+		w.impersonate()
+	}
 	var rev types.V2FileContract
 	var wantUsage proto4.Usage
 	w.t.conn.respond = func(c *scriptConn) []byte {
@@ -298,6 +325,8 @@ func VerifH_C10_free() {
 				sel = 1
 			} else if corrupt == 4 {
 				sel = 2
+			} else if corrupt == 5 {
+				sel = 3
 			}
 			return encResp(&proto4.RPCFreeSectorsThirdResponse{HostSignature: w.hostSig(rev, sel)})
 		}
@@ -323,7 +352,7 @@ func VerifH_C10_free() {
 
 // VerifH_C10_fund: RPCFundAccounts: balances count and host signature.
 //
-//verif:harness prop=C10 tier=quick replay=native go=skip require=ok,rejected bounds="1..2 deposits with symbolic amounts < 2^40; corruption of the balance count / the host signature"
+//verif:harness prop=C10 tier=quick replay=native go=skip require=ok,rejected bounds="1..2 deposits with symbolic amounts < 2^40; corruption of the balance count / the host signature (forged, over a dearer revision, or made by a peer that is not the contract's host)"
 func VerifH_C10_fund() {
 	w := newClientWorld(1)
 	k := vapi.Int("nDeposits", 1, 2)
@@ -340,7 +369,10 @@ func VerifH_C10_fund() {
 	if err != nil {
 		panic(err)
 	}
-	corrupt := vapi.Int("corrupt", 0, 4)
+	corrupt := vapi.Int("corrupt", 0, 5)
+	if corrupt == 5 {
+		w.impersonate()
+	}
 	w.t.conn.respond = func(c *scriptConn) []byte {
 		if c.round > 0 {
 			return nil
@@ -359,6 +391,8 @@ func VerifH_C10_fund() {
 			sel = 1
 		case 4:
 			sel = 2
+		case 5:
+			sel = 3
 		}
 		resp.HostSignature = w.hostSig(rev, sel)
 		return encResp(&resp)
@@ -399,7 +433,10 @@ func VerifH_C10_replenish() {
 		deposits = append(deposits, proto4.AccountDeposit{Account: acctN(i), Amount: amt})
 		sum = sum.Add(amt)
 	}
-	sigSel := vapi.Int("sig", 0, 2)
+	sigSel := vapi.Int("sig", 0, 3)
+	if sigSel == 3 {
+		w.impersonate()
+	}
 	w.t.conn.respond = func(c *scriptConn) []byte {
 		switch c.round {
 		case 0:
